@@ -74,30 +74,30 @@ class O2JMap(Map[O2JNoteList, O2JHitList, O2JHoldList, O2JBpmList]):
 
         bpms = [e for e in events if isinstance(e, O2JBpm)]
 
+        # Integrate the tempo events in measure order: each one starts where
+        # the previous tempo has brought us.
+        bpms.sort(key=lambda x: x.measure)
         offset = 0
         measure = 0
-        bpm_ix = -1
         bpm_val = init_bpm
+        # (measure, offset, bpm) of every tempo section, the header bpm first
+        sections = [(measure, offset, bpm_val)]
+        for bpm in bpms:
+            offset += RAConst.min_to_msec((bpm.measure - measure) * 4 / bpm_val)
+            bpm.offset = offset
+            measure = bpm.measure
+            bpm_val = bpm.bpm
+            sections.append((measure, offset, bpm_val))
 
-        next_bpm_measure = bpms[0].measure if len(bpms) > 0 else None
+        section_ix = 0
         for note_measure in note_measures:
-            if not next_bpm_measure:
-                while note_measure > next_bpm_measure:
-                    bpm_ix += 1
-                    bpm = bpms[bpm_ix]
-                    # Update offset
-                    offset += RAConst.min_to_msec((bpm.measure - measure) * 4 / bpm_val)
-                    bpm.offset = offset
-                    measure = bpm.measure
-                    bpm_val = bpm.bpm
-
-                    # Check if next one is available
-                    if bpm_ix + 1 == len(bpms):
-                        next_bpm_measure = None
-                        break
-                    else:
-                        next_bpm_measure = bpm.measure
-
+            # The last tempo section starting at or before this measure
+            while (
+                section_ix + 1 < len(sections)
+                and sections[section_ix + 1][0] <= note_measure
+            ):
+                section_ix += 1
+            measure, offset, bpm_val = sections[section_ix]
             # We add it into the measure: offset dictionary.
             note_measure_dict[note_measure] = offset + RAConst.min_to_msec(
                 4 * (note_measure - measure) / bpm_val
